@@ -119,7 +119,18 @@ C02Qs == {Rec(sh, b, a, p) : sh \in Generic, b \in {x \in QsBits : x >= 40}, a \
 C02Ecm == EcmSet \cup {Rec(sh, b, "ecm128", NoPref) : sh \in Generic, b \in Ecm128Bits}
 C02Set == C02Auto \cup C02Qs \cup C02Ecm
 
-C03Set == {r \in Grid : GridOK(r) /\ r.bits \in {24, 48, 64, 80, 100}} \cup EdgeSet \cup LimitSet
+\* large sieve inputs cannot finish inside any budget: they are bounded by an abort predicate that turns true at
+\* its k-th poll (the call must then return the composite part or the failure value); with and without a pool -
+\* a pool starts workers at distant task indices, where index arithmetic is largest.  k shrinks with the size
+\* so that a call stays far below the hang deadline of the driver even in the checked profile (measured:
+\* 260 bits, 40 polls: 25 s; 300 bits, 8 polls: 20 s).
+AbortPref(t, k) == [threads |-> t, fb |-> 0, lf |-> 0, dbl |-> 0, isz |-> 0, abort |-> k]
+BigSieveSet == {Rec("pq", b, a, AbortPref(t, 40)) : b \in {160, 200, 260}, a \in {"mpqs", "siqs"}, t \in {0, 2, 4}}
+               \cup {Rec("pq", 300, a, AbortPref(t, 8)) : a \in {"mpqs", "siqs"}, t \in {0, 2, 4}}
+               \cup {Rec("pq", b, "qs", AbortPref(t, 40)) : b \in {160, 200, 260}, t \in {0, 2}}
+               \cup {Rec("pq", b, "auto", AbortPref(t, 40)) : b \in {200, 260}, t \in {0, 4}}
+
+C03Set == {r \in Grid : GridOK(r) /\ r.bits \in {24, 48, 64, 80, 100}} \cup EdgeSet \cup LimitSet \cup BigSieveSet
           \cup {r \in SpecialSet : SpecialOK(r)} \cup BoundarySet
           \cup {r \in PrefSet : r.bits \in {48, 80}}
 
